@@ -40,6 +40,9 @@ ASSUME EachFlagMatters
 ASSUME DeepContainment(FullDepth)
 ASSUME \A i \in 0..255 : MaskOf(PermOf(i)) = i
 ASSUME MechanismRestores(HistLen)
+ASSUME CombineNarrows
+\* scope mask x argument mask -> the mask in force (index = mask + 1)
+CombineTab == [p \in 1..256 |-> [q \in 1..256 |-> MaskOf(Combine(PermTab[p], PermTab[q]))]]
 ASSUME \A n \in DOMAIN ErrProgs : ErrProgs[n] \subseteq Kinds
 ASSUME JsonSerialize(IOEnv.OUT_FILE,
          [kinds |-> [i \in 1..Cardinality(Kinds) |-> KindRec(SetToSeq(Kinds)[i])],
@@ -48,5 +51,6 @@ ASSUME JsonSerialize(IOEnv.OUT_FILE,
           deeper |-> [i \in 1..Len(Deeper) |-> Rec(Deeper[i])],
           errprogs |-> [i \in 1..Len(ErrNames) |->
                           [name |-> ErrNames[i], kinds |-> SetToSeq(ErrProgs[ErrNames[i]]), v |-> RowK(ErrProgs[ErrNames[i]])]],
+          combine |-> CombineTab,
           histories |-> [i \in 1..Len(HistSeq) |-> [h |-> HistSeq[i], eff |-> EffAfter(HistSeq[i])]]])
 =============================================================================
